@@ -188,8 +188,11 @@ class C08Session(Session):
             return getattr(coll, name)(*inputs, **kw)
         raise HarnessError("via " + via)
 
-    def _call(self, world, op, data, env_kind=None):
+    def _call(self, world, op, data, env_kind=None, trace=False):
         """-> (outcome, encoded result or None, crash line)"""
+        if trace:
+            with faults.trace_lines():
+                return self._call(world, op, data, env_kind)
         had_pandas = None
         faults.ORDER[0] = op.get("order", 0)
         try:
@@ -251,7 +254,7 @@ class C08Session(Session):
         return tw
 
     # ---- enumeration ----------------------------------------------------------
-    def _variants(self, op, hits, calls):
+    def _variants(self, op, hits, calls, lines=()):
         if "faults" in op:
             return list(op["faults"])
         en = op.get("enumerate")
@@ -283,6 +286,13 @@ class C08Session(Session):
         if len(out) > mx:
             out = random.Random(en.get("sel_seed", 0)).sample(out, mx)
             out.sort(key=canon)
+        # line-granular interrupts: every executed line of the traced functions is a crash point
+        lmax = en.get("line_max", 0)
+        if lmax and lines:
+            lv = [{"kind": "line", "func": f, "line": n} for f, n in lines]
+            if len(lv) > lmax:
+                lv = random.Random(en.get("sel_seed", 0) + 1).sample(lv, lmax)
+            out.extend(lv)
         return out
 
     @staticmethod
@@ -293,12 +303,17 @@ class C08Session(Session):
             return f"hook@{var['site']}:{var['flavour']}"
         if var["kind"] == "cb":
             return "cb_" + var["mode"]
+        if var["kind"] == "line":
+            return "line:int"
         return "env:" + var["what"]
 
     def _arm(self, var):
         faults.SCRIPT.clear()
         faults.FIRED.clear()
         faults.ARMED[0] = None
+        faults.ARMED_LINE[0] = None
+        if var["kind"] == "line":
+            faults.ARMED_LINE[0] = (var["func"], var["line"])
         if var["kind"] == "hook":
             faults.ARMED[0] = {"site": var["site"], "key": var["key"], "flavour": var["flavour"]}
         elif var["kind"] == "cb":
@@ -311,6 +326,7 @@ class C08Session(Session):
     def _disarm():
         faults.SCRIPT.clear()
         faults.ARMED[0] = None
+        faults.ARMED_LINE[0] = None
 
     # ---- the op ---------------------------------------------------------------
     def apply(self, op):
@@ -324,7 +340,7 @@ class C08Session(Session):
         self.history.append(op)
 
     def _compare(self, world, pre, data, what, op, var, outcome):
-        post = snap_world(world, extra=data)
+        post = snap_world(world, extra=data, strict_style=True)
         if post != pre:
             path = first_diff(pre, post)
             raise Violation(
@@ -337,17 +353,20 @@ class C08Session(Session):
         world = self.world
         faults.INDEX_OF[0] = world.index
         data = self._bind(world, op, self._caller_data(op))
-        pre = snap_world(world, extra=data)
+        pre = snap_world(world, extra=data, strict_style=True)
         # 1. baseline, fault free, recording reachable sites
         faults.HITS.clear()
         faults.CALLS.clear()
+        faults.LINES.clear()
+        want_lines = bool((op.get("enumerate") or {}).get("line_max"))
         faults.RECORD[0] = True
         try:
-            out0, r0, line0 = self._call(world, op, data)
+            out0, r0, line0 = self._call(world, op, data, trace=want_lines)
         finally:
             faults.RECORD[0] = False
         hits = list(faults.HITS)
         calls = list(faults.CALLS)
+        lines = list(dict.fromkeys(faults.LINES))  # distinct, in first-execution order
         self.stats["ops"] += 1
         self.stats["field_calls"] += 1
         self.stats["baseline." + out0.split(":")[0]] += 1
@@ -374,19 +393,20 @@ class C08Session(Session):
         self.transition("field", op["via"], op["field"], min(n_tiled, 3), None, None, out0)
         # 3. every reachable crash site x flavour
         group_order = [k for s, k in hits if s == "group.eval"]
-        for var in self._variants(op, hits, calls):
+        for var in self._variants(op, hits, calls, lines):
             w = world
             data_main = data
             if self.cfg.get("twin_mode") == "rebuild":
                 w = self._rebuild()
                 faults.INDEX_OF[0] = w.index
                 data = self._bind(w, op, data_main)
-                pre_w = snap_world(w, extra=data)
+                pre_w = snap_world(w, extra=data, strict_style=True)
                 if pre_w != pre:
                     raise HarnessError("rebuilt twin differs from the main world: " + str(first_diff(pre, pre_w)))
             self._arm(var)
             try:
-                out, r, line = self._call(w, op, data, env_kind=var.get("what") if var["kind"] == "env" else None)
+                out, r, line = self._call(w, op, data, env_kind=var.get("what") if var["kind"] == "env" else None,
+                                          trace=var["kind"] == "line")
                 fired = list(faults.FIRED)
             finally:
                 self._disarm()
@@ -408,6 +428,10 @@ class C08Session(Session):
                         self.probe("fault_after_eval_with_padded_paths")
                 if var["kind"] == "cb" and n_tiled:
                     self.probe("callback_fault_with_padded_paths")
+                if var["kind"] == "line":
+                    self.stats["line_fault." + var["func"]] += 1
+                    if n_tiled:
+                        self.probe("line_interrupt_with_padded_paths")
             self.log.add("var", self.step, canon(var), out, did_fire, sdigest(r))
             self.transition("field", op["via"], op["field"], min(n_tiled, 3), label, did_fire, out.split(":")[0])
             what = "state_changed_after_call" if out == "ok" else "state_changed_after_failed_call"
@@ -454,7 +478,7 @@ class C08Session(Session):
 class Sim:
     id = ID
     level = LEVEL
-    runs = {"quick": 3000}
+    runs = {"quick": 2400}
     budget = {"thorough": 600}
     chunk = {"quick": 25, "thorough": 25}
     cross_n = 16
@@ -495,6 +519,7 @@ class Sim:
             "half_init": rng.choice([0.0, 0.0, 0.0, 0.08]),
             "vias": [v for v in ["top", "src", "sens", "coll", "dict"] if rng.random() < 0.7] or ["top"],
             "max_variants": rng.choice([8, 24, 64]),
+            "line_max": rng.choice([0, 0, 0, 8, 16]),
             "hook_flavours": rng.choice([["mem"], ["mem", "int"]]),
             "cb_modes": [m for m in CB_MODES if rng.random() < 0.7] or ["raise"],
             "env": [e for e in ["fp_raise", "warn_error", "no_pandas"] if rng.random() < 0.5],
@@ -673,7 +698,7 @@ class Sim:
             op["pixel_agg"] = rng.choice(AGG_GOOD)
         if rng.random() < 0.5:
             op["order"] = rng.randrange(1, 1 << 20)  # the simulator decides the tiled-set iteration order
-        op["enumerate"] = {"max": cfg["max_variants"], "hook_flavours": cfg["hook_flavours"],
+        op["enumerate"] = {"line_max": cfg.get("line_max", 0), "max": cfg["max_variants"], "hook_flavours": cfg["hook_flavours"],
                            "cb_modes": cfg["cb_modes"], "env": cfg["env"], "sel_seed": rng.randrange(1 << 30)}
         return op
 
